@@ -87,6 +87,16 @@ def ev_client_connectRecover : List String :=
   ["func-literal", "if e != nil", "call func() int { c.mu.Lock() defer c.mu.Unlock() c.connectAttempt++ return c.connectAttempt }()", "func-literal", "call c.mu.Lock()", "call c.mu.Unlock()", "return c.connectAttempt", "if attempt > 1", "call reconnectTimeout(attempt)", "select-case <-ctx.Wait()", "return nil, ctx.Status()", "select-case <-time.After(timeout)", "call c.connector.connect(ctx, c.addr)", "if !st.OK()", "return nil, st", "call c.handle(conn)", "call c.mu.Lock()", "call c.mu.Unlock()", "if c.closed_.IsSet()", "call c.closed_.IsSet()", "call conn.Close()", "return nil, status.Closedf(\"mpx client closed\")", "call status.Closedf(\"mpx client closed\")", "call c.conns.Load().add(conn)", "call c.conns.Load()", "call c.conns.Store(conns)", "call c.connected_.Set()", "call c.disconnected_.Unset()", "return conn, status.OK"]
 def ev_reconnectTimeout : List String :=
   ["assign multi := uint16(1<<attempt - 2)", "assign timeout := minConnectRetryTimeout * time.Duration(multi)", "return min(timeout, maxConnectRetryTimeout)", "call min(timeout, maxConnectRetryTimeout)"]
+def ev_lexer_Lex : List String :=
+  ["for", "call l.s.Scan()", "if token == scanner.EOF", "return EOF", "switch token", "case scanner.Ident", "if ok", "if debugLexer", "if debugLexer", "return lval.yys", "case scanner.Int", "call strconv.ParseInt(text, 10, 64)", "if err != nil", "return yyLexErrorf(l, \"invalid integer %v\", text)", "call yyLexErrorf(l, \"invalid integer %v\", text)", "if debugLexer", "return lval.yys", "case scanner.Float, scanner.Char, scanner.RawString", "if debugLexer", "return yyLexErrorf(l, \"unexpected %v\", text)", "call yyLexErrorf(l, \"unexpected %v\", text)", "case scanner.String", "if debugLexer", "return lval.yys", "case scanner.Comment", "if debugLexer", "default", "if debugLexer", "return lval.yys"]
+def ev_lexer_new : List String :=
+  ["assign s := &scanner.Scanner{}", "call s.Init(src)", "assign s.Filename = filename", "assign l := &lexer{s: s}", "assign s.Error = l.scanError", "return l"]
+def ev_lexer_Error : List String :=
+  ["if l.err != nil", "return ", "assign l.err = fmt.Errorf(\"%v %v\", l.s.Position, s)"]
+def ev_lexer_scanError : List String :=
+  ["if l.err != nil", "return ", "assign pos := s.Position", "if !pos.IsValid()", "assign pos = s.Pos()", "assign l.err = fmt.Errorf(\"%v %v\", pos, msg)"]
+def ev_parser_parse : List String :=
+  ["assign lexer := newLexer(filename, src)", "call newLexer(filename, src)", "assign parser := yyNewParser()", "call yyNewParser()", "call parser.Parse(lexer)", "if err != nil", "assign err := lexer.err", "return nil, err", "assign file := lexer.file", "assign file.Path = filename", "return file, nil"]
 def ev_reader_readLine : List String :=
   ["assign b := make([]byte, 0, max)", "for len(b) < max", "assign c, err := r.src.ReadByte()", "call r.src.ReadByte()", "if err != nil", "return \"\", mpxError(err)", "assign b = append(b, c)", "if c == '\\n'", "assign s := string(b)", "if debug", "return s, status.OK"]
 def ev_reader_read : List String :=
